@@ -37,7 +37,8 @@ fn eval(ctx: &mut Context, code: &str) -> J {
     if r.outcome != "ok" {
         return json!({"ok": false, "outcome": r.outcome, "kind": r.kind, "msg": r.message});
     }
-    match &r.value {
+    // observing the value (base-unit conversion factor, display) runs code under test too: a panic there is data
+    let observed = std::panic::catch_unwind(std::panic::AssertUnwindSafe(|| match &r.value {
         Some(Value::Quantity(q)) => {
             let p = numbat::verif::quantity_parts(q);
             json!({"ok": true, "value": format!("{:e}", p.value), "unit": factors_json(&p.unit), "text": r.value.as_ref().unwrap().to_string(),
@@ -45,7 +46,8 @@ fn eval(ctx: &mut Context, code: &str) -> J {
         }
         Some(v) => json!({"ok": true, "text": v.to_string(), "nonquantity": true}),
         None => json!({"ok": true, "novalue": true}),
-    }
+    }));
+    observed.unwrap_or_else(|_| json!({"ok": false, "outcome": "panic", "kind": "panic", "msg": "panic while observing the value (conversion factor / display)"}))
 }
 
 /// does the reader take `text` as ONE identifier (and not, e.g., as two adjacent identifiers = a product)?
@@ -138,8 +140,12 @@ fn replay_chunk(cases: &[J]) -> Vec<J> {
                 let text = text.to_string();
                 o["rb"] = json!({"res": resolve(&ctx, &text), "one_token": one_identifier(&text), "conv": eval(&mut ctx, &format!("{text} -> {text}"))});
             }
+            let panicked = conv["outcome"] == "panic" || fac["outcome"] == "panic";
             o["conv"] = conv;
             o["fac"] = fac;
+            if panicked {
+                ctx = prelude_context();   // a panic leaves the session in an undefined state
+            }
         }
         out.push(o);
     }
